@@ -105,6 +105,14 @@ fn make_boundary_programs() -> Vec<String> {
                     }
                     // slice of a slice
                     v.push(format!("({} <~ (0 .. 1)) .|", slice));
+                    // the slice as an operand of a concatenation / an item of a list, then consumed by something that
+                    // walks the whole value
+                    for wrapped in [format!("({} <> 4)", slice), format!("(4 <> {})", slice), format!("({} <> {})", slice, slice), format!("({} 4)", slice)] {
+                        for op in [" == (4 <> 5)", " .|", " . 0", " . 5", " ~# (# (1 2))", " ~# (# \"\")", " < (4 <> 5)"] {
+                            v.push(format!("{}{}", wrapped, op));
+                        }
+                        v.push(format!("({} <~ (1 .. 7)) == (4 <> 5)", wrapped));
+                    }
                 }
             }
         }
